@@ -21,7 +21,7 @@ type c10Desc struct {
 	History int    `json:"history,omitempty"`
 }
 
-var c10Phases = []string{"init", "reserved", "working", "responded", "timeoutFired", "resetting", "returned"}
+var c10Phases = []string{"init", "reserved", "working", "responded", "timeoutFired", "resetting", "releaseFailed", "failureReset", "initTimedOut", "returned"}
 
 func genC10(tier string, seed int64) []Case {
 	var cases []Case
@@ -75,7 +75,7 @@ func genC10(tier string, seed int64) []Case {
 
 func runC10(c *Ctx, d c10Desc) {
 	timeout := int64(5000)
-	if d.Phase == "timeoutFired" || d.Phase == "resetting" {
+	if d.Phase == "timeoutFired" || d.Phase == "resetting" || d.Phase == "initTimedOut" {
 		timeout = 250
 	}
 	exts := []string{}
@@ -176,7 +176,32 @@ func runC10(c *Ctx, d c10Desc) {
 	payload := []byte("first-payload")
 	expectFirst := "ok"
 
-	if d.Phase == "init" {
+	if d.Phase == "initTimedOut" {
+		// the first caller arrives during an initialisation that never completes and hits its timeout while
+		// still waiting for it; the extra callers arrive while the timeout reset is tearing the init down.
+		// They are refused - and the timed-out invocation stays what it is: never dispatched, empty answer.
+		expectFirst = "timeout"
+		hk.Hold("handleReset.flowsCancelled", 0)
+		first = w.E.InvokeAsync(payload, vh.InvokeOpts{})
+		if !hk.WaitHeld("handleReset.flowsCancelled", 5*time.Second) {
+			c.Inconclusive("hook handleReset.flowsCancelled not reached")
+			return
+		}
+		// the cancelled init makes the waiting invocation's helper shut the environment down; that shutdown
+		// is kept busy (the exit notification of the killed runtime is held back) while the extras arrive
+		hk.Hold("watchEvents.received", 0)
+		if !hk.WaitHeld("watchEvents.received", 5*time.Second) {
+			c.Inconclusive("hook watchEvents.received not reached")
+			return
+		}
+		time.Sleep(2 * time.Millisecond)
+		extras = extra()
+		for _, x := range extras {
+			x.Wait(3 * time.Second)
+		}
+		hk.Release("watchEvents.received")
+		hk.Release("handleReset.flowsCancelled")
+	} else if d.Phase == "init" {
 		before := hk.Arrived()["invoke.reserved"]
 		first = w.E.InvokeAsync(payload, vh.InvokeOpts{})
 		// the extra callers must arrive AFTER the first one holds the reservation (on a loaded machine its
@@ -269,6 +294,27 @@ func runC10(c *Ctx, d c10Desc) {
 			x.Wait(3 * time.Second)
 		}
 		hk.Release("handleReset.flowsCancelled")
+	case "releaseFailed", "failureReset":
+		// the invocation FAILS (its runtime exits while working); the extra callers arrive after the failure
+		// was noticed, before / while the reset that ends a failed invocation runs
+		expectFirst = "invokefail"
+		hookName := map[string]string{"releaseFailed": "invoke.releaseFailed", "failureReset": "handleReset.flowsCancelled"}[d.Phase]
+		hk.Hold(hookName, 0)
+		first = w.E.InvokeAsync(payload, vh.InvokeOpts{})
+		if ev := firstNext.Wait(5 * time.Second); ev == nil {
+			c.Inconclusive("runtime did not get the event")
+			return
+		}
+		rtp.RequestExit(vh.Exit{Code: 1})
+		if !hk.WaitHeld(hookName, 5*time.Second) {
+			c.Inconclusive("hook " + hookName + " not reached")
+			return
+		}
+		extras = extra()
+		for _, x := range extras {
+			x.Wait(3 * time.Second)
+		}
+		hk.Release(hookName)
 	case "returned":
 		first = w.E.InvokeAsync(payload, vh.InvokeOpts{})
 		if !complete(first, []byte("resp-first")) {
@@ -328,6 +374,19 @@ func runC10(c *Ctx, d c10Desc) {
 			}
 		}
 		c.Check(n == d.History+1 || (d.Phase == "init" && n == 1), "no_extra_dispatch", "C10/extra-dispatched/"+d.Phase, fmt.Sprintf("runtime received %d events, expected %d", n, d.History+1), nil)
+	}
+
+	if d.Phase == "initTimedOut" {
+		// give a wrongly dispatched event the time to travel through the next generation
+		time.Sleep(150 * time.Millisecond)
+		n := 0
+		for _, e := range w.E.Log.Snapshot() {
+			if e.Kind == "ret" && e.Op == "next" && e.Status == 200 && e.Len == len(payload) && e.Sha == vh.Digest(payload) {
+				n++
+			}
+		}
+		c.Check(n == 0, "timed_out_not_dispatched", fmt.Sprintf("C10/timed-out-invocation-dispatched/%d", n), "the invocation that timed out while waiting for init was delivered to a runtime after extra callers had been refused", nil)
+		c.Check(len(first.W.Body()) == 0 && first.W.LateWrites() == 0, "first_body", "C10/first-body/"+d.Phase, "the timed-out invocation received a body", string(first.W.Body()))
 	}
 
 	// --- "returned" phase: a caller right after completion must be served ---
